@@ -780,6 +780,37 @@ def swallowed_loops(fn: ast.AST) -> list[tuple[ast.If, ast.For]]:
         other = [l for l in loops if over(l) != g]
         if own and other:
             out.append((i, other[0]))
+    # the early-exit spelling: `if not xs: continue` followed by a loop over xs and a loop over something else
+    alias = {t.id: unparse(s.value) for s in walk_body(fn) if isinstance(s, ast.Assign) and isinstance(s.value, (ast.Attribute, ast.Name))
+             for t in s.targets if isinstance(t, ast.Name)}
+
+    def canon(text: str) -> str:
+        return alias.get(text, text)
+
+    def over2(l: ast.For) -> str:
+        it = l.iter
+        while isinstance(it, ast.Call) and it.args and isinstance(it.func, ast.Name) and it.func.id in ("enumerate", "list", "tuple", "sorted", "reversed"):
+            it = it.args[0]
+        if isinstance(it, ast.Call) and isinstance(it.func, ast.Attribute) and it.func.attr in ("items", "values", "keys"):
+            it = it.func.value
+        return canon(unparse(it))
+
+    for blk in ast.walk(fn):
+        for field in ("body", "orelse"):
+            stmts = getattr(blk, field, None)
+            if not isinstance(stmts, list):
+                continue
+            for k, i in enumerate(stmts):
+                if not (isinstance(i, ast.If) and not i.orelse and isinstance(i.test, ast.UnaryOp) and isinstance(i.test.op, ast.Not)
+                        and isinstance(i.test.operand, (ast.Name, ast.Attribute)) and len(i.body) == 1
+                        and (isinstance(i.body[0], ast.Continue) or (isinstance(i.body[0], ast.Return) and i.body[0].value is None))):
+                    continue
+                g = canon(unparse(i.test.operand))
+                loops = [s for s in stmts[k + 1:] if isinstance(s, ast.For)]
+                own = [l for l in loops if over2(l) == g]
+                other = [l for l in loops if over2(l) != g]
+                if own and other:
+                    out.append((i, other[0]))
     return out
 
 
@@ -795,9 +826,9 @@ def emptiness_guard(check: Check, funcs: Iterable[ast.AST], rule: str = "EMPTINE
     for fn in funcs:
         ifs = [i for i in walk_body(fn) if isinstance(i, ast.If) and not i.orelse and isinstance(i.test, (ast.Name, ast.Attribute))
                and sum(isinstance(s, ast.For) for s in i.body) >= 1]
-        if not ifs:
-            continue
         bad = swallowed_loops(fn)
+        if not ifs and not bad:
+            continue
         n += 1
         check.ob(rule, fn, f"{getattr(fn, 'name', '?')}: emptiness guards enclose only their own loop", not bad,
                  f"{len(ifs)} guarded loop(s)" if not bad else
@@ -806,6 +837,7 @@ def emptiness_guard(check: Check, funcs: Iterable[ast.AST], rule: str = "EMPTINE
     fx = fixture("generic_controls")
     check.control(f"{rule}:bad", bool(swallowed_loops(fx.get("guard_bad"))), True)
     check.control(f"{rule}:ok", bool(swallowed_loops(fx.get("guard_ok"))), False)
+    check.control(f"{rule}:bad-early-exit", bool(swallowed_loops(fx.get("guard_bad_early_exit"))), True)
     return n
 
 
